@@ -98,6 +98,26 @@ Theorem C18_priority_table :
 Proof. exact priority_table. Qed.
 Print Assumptions C18_priority_table.
 
+(* Tie T for the ALGORITHM: the `_src` functions are what harness/tables/EnvLookupAlg.py translates
+   from the CURRENT source text of environ/lookups.py on every run (clean, try_cleaned, the three
+   with_* tiers, lookup_exact); they equal the hand-written model on every state and key, so the
+   precedence theorems above are about the order of attempts the source spells out now. *)
+From DW Require Import T_EnvLookupAlg EnvLookupSrcTie.
+Theorem C18_lookup_source_tie :
+  (forall s, clean_src s = clean s) /\
+  (forall st key, try_cleaned_src st key = try_cleaned st key) /\
+  (forall st key, with_screaming_snake_case_src st key = with_screaming_snake_case st key) /\
+  (forall st key, with_snake_case_src st key = with_snake_case st key) /\
+  (forall st key, with_pascal_or_camel_case_src st key = with_pascal_or_camel_case st key) /\
+  (forall st v, lookup_exact_str_src st v = lookup_exact_str st v) /\
+  (forall st vars, lookup_exact_seq_src st vars = lookup_exact_seq st vars).
+Proof.
+  exact (conj clean_src_eq (conj try_cleaned_src_eq (conj with_screaming_snake_case_src_eq
+        (conj with_snake_case_src_eq (conj with_pascal_or_camel_case_src_eq
+        (conj lookup_exact_str_src_eq lookup_exact_seq_src_eq)))))).
+Qed.
+Print Assumptions C18_lookup_source_tie.
+
 (* ---- non-vacuity ------------------------------------------------------------------------------- *)
 (* The F13 history (repaired by commit b4949e0): My-Var=A and myvar=B are set, E(_reload=True) touches
    cleaned_to_env, the winner is deleted from os.environ, E(_reload=True) again: the survivor is found
